@@ -180,6 +180,7 @@ class Config:
         self.inline_only = None  # optional set of "module.qualname" allowed to be interpreted
         self.max_unroll = 64
         self.attr_hook = None  # callable(interp, obj, name) -> value | _MISSING
+        self.inline_generators = set()  # generator functions whose body is run as a trace producer (on_yield hook)
 
 
 class LoopSpec:
@@ -406,6 +407,10 @@ class Interp:
     def _call_class(self, cls, args, kwargs):
         import attrs
 
+        if "**" in kwargs:
+            if self.cfg.havoc_call is None:
+                raise OutsideSubset(f"{cls.__name__}(**<unknown mapping>)")
+            return self.cfg.havoc_call(self, Opaque(f"{cls.__name__}(**kwargs)"), args, kwargs)
         if attrs.has(cls):
             return self.models.attrs_construct(self, cls, args, kwargs)
         if (cls.__module__ or "").startswith("iodata"):
@@ -472,7 +477,7 @@ class Interp:
         self.bind_args(frame, node.args, args, kwargs, defaults, kwdefaults, key)
         if isinstance(node, ast.Lambda):
             return self.eval(node.body, frame)
-        if source.is_generator_def(node):
+        if source.is_generator_def(node) and key not in self.cfg.inline_generators:
             return self._make_generator(node, frame, key)
         return self.run_body(node.body, frame)
 
